@@ -2,8 +2,7 @@
   C12 — EEPROM reads return exactly the stored bytes and parse to what they encode.
   Property theorems only; helper lemmas live in EcModel/Lemmas.
 -/
-import EcModel.Lemmas.EepromBasic
-import EcModel.EepromSpec
+import EcModel.Lemmas.EepromParse
 
 namespace Ec.C12
 open Ec Ec.Eeprom Ec.EepromSpec
@@ -106,6 +105,133 @@ theorem read_raw_odd_counterexample :
     (bind (startAt .checked 4 1) fun r => Range.read .checked p r 1).1 = .ok ([], ⟨8, 8⟩) ∧
     (bind (startAt .checked 4 1) fun r => eofToOverrun (Range.readExact .checked p r 1)).1 = .err .overrun := by
   decide
+
+/-! ## Categories of a well-formed image -/
+
+/-- The memory `p.rd` holds the image from byte 0 (whatever lies behind it). -/
+def HoldsImage (p : Prov) (img : List Nat) : Prop := Holds p.rd 0 img
+
+theorem holdsImage_imgRd (img : List Nat) (fill cs : Nat) : HoldsImage ⟨imgRd img fill, cs⟩ img := by
+  have := holds_imgRd [] img [] fill
+  simpa [HoldsImage] using this
+
+theorem holds_cats {p : Prov} {hdr : List Nat} {cats : List Cat} (h : HoldsImage p (encodeSii hdr cats))
+    (hhdr : hdr.length = 128) : Holds p.rd 128 (encCats cats ++ [0xff, 0xff]) := by
+  unfold HoldsImage encodeSii at h
+  rw [List.append_assoc] at h
+  have := h.append.2
+  rw [hhdr] at this
+  simpa using this
+
+/-- **Every present category is found with its exact extent.** For any image
+    `header ++ pre ++ [c] ++ post ++ End` in memory (any chunk size ≥ 4, any build mode), where no category
+    in `pre` has the type searched for (unknown vendor types are fine: they all map to `Nop`), fewer than 32
+    empty categories come first, and the category ends below byte 65536: the search returns the byte window
+    of `c`'s body, exactly. -/
+theorem category_found (m : Mode) (p : Prov) (hcs : 4 ≤ p.cs) (hdr : List Nat) (pre : List Cat) (c : Cat)
+    (post : List Cat) (himg : HoldsImage p (encodeSii hdr (pre ++ c :: post))) (hhdr : hdr.length = 128)
+    (hpre : ∀ x ∈ pre, x.WF ∧ catOf x.type ≠ catOf c.type ∧ catOf x.type ≠ Gen.Eeprom.CAT_END)
+    (hc : c.WF) (hne : empties pre + (if c.body.length / 2 = 0 then 1 else 0) < 32)
+    (hsize : 128 + (encCats pre).length + 4 + c.body.length < 65536) :
+    (category m p (catOf c.type)).1
+      = .ok (some ⟨128 + (encCats pre).length + 4, 128 + (encCats pre).length + 4 + c.body.length⟩) := by
+  have hh := holds_cats himg hhdr
+  rw [encCats_append] at hh
+  simp only [encCats, List.append_assoc] at hh
+  exact category_found_at m p hcs pre c _ hh hpre hc hne hsize
+
+/-- **An absent category is reported absent**: no category of that type before the End marker ⇒ `None`. -/
+theorem category_absent (m : Mode) (p : Prov) (hcs : 4 ≤ p.cs) (hdr : List Nat) (cats : List Cat) (cat : Nat)
+    (himg : HoldsImage p (encodeSii hdr cats)) (hhdr : hdr.length = 128)
+    (hall : ∀ x ∈ cats, x.WF ∧ catOf x.type ≠ cat ∧ catOf x.type ≠ Gen.Eeprom.CAT_END)
+    (hcat : cat ≠ Gen.Eeprom.CAT_END) (hne : empties cats < 32)
+    (hsize : 128 + (encCats cats).length + 4 < 65536) :
+    (category m p cat).1 = .ok none := by
+  have hh := holds_cats himg hhdr
+  exact category_absent_at m p hcs cats cat [] (by simpa using hh) hall hcat hne hsize
+
+/-- The full statement (any well-formed image) is FALSE of the code: 32 empty categories in front make the
+    search give up (the blank-EEPROM heuristic), and categories beyond byte 65532 are out of reach of the `u16`
+    cursor (`C13.category_beyond_32k_counterexample`). Here: 32 empty vendor categories, then FMMU. -/
+theorem category_found_counterexample :
+    let cats := (List.replicate 32 (⟨0x2000, []⟩ : Cat)) ++ [⟨40, [1, 2]⟩]
+    (category .checked ⟨imgRd (encodeSii (List.replicate 128 0) cats) 255, 4⟩ 40).1 = .ok none := by
+  decide
+
+/-! ## Parsers return what the image encodes -/
+
+/-- What the sync manager parser stores for a description (control re-packed from its parsed fields). -/
+def smOf (d : SmDesc) : Sm := ⟨d.start, d.len, controlOf d.control, d.enable, d.usage⟩
+
+theorem parseSm_enc (d : SmDesc) (hd : d.WF) : parseSm (encSm d) = ret (smOf d) := by
+  obtain ⟨h1, h2, _, _, h5, h6⟩ := hd
+  have he : fromBits Gen.Eeprom.SM_ENABLE_MASK d.enable = some d.enable := by
+    have : ∀ e, e ≤ 15 → fromBits Gen.Eeprom.SM_ENABLE_MASK e = some e := by decide
+    exact this _ h5
+  have hu : enumOf Gen.Eeprom.syncManagerTypeTable Gen.Eeprom.syncManagerTypeDefault d.usage = some d.usage := by
+    have : ∀ u, u ≤ 4 → enumOf Gen.Eeprom.syncManagerTypeTable Gen.Eeprom.syncManagerTypeDefault u = some u := by
+      decide
+    exact this _ h6
+  unfold parseSm
+  have g6 : (encSm d).getD 6 0 = d.enable := by simp [encSm, le16]
+  have g7 : (encSm d).getD 7 0 = d.usage := by simp [encSm, le16]
+  have g4 : (encSm d).getD 4 0 = d.control := by simp [encSm, le16]
+  have r0 : rd16 (encSm d) = d.start := by simp [encSm, le16, rd16]; omega
+  have r2 : rd16 ((encSm d).drop 2) = d.len := by simp [encSm, le16, rd16]; omega
+  rw [g6, g7, he, hu, g4, r0, r2]
+  rfl
+
+theorem flatMap_length_const {β : Type} (enc : β → List Nat) (sz : Nat) :
+    ∀ (l : List β), (∀ b ∈ l, (enc b).length = sz) → (l.flatMap enc).length = sz * l.length := by
+  intro l
+  induction l with
+  | nil => intro _; simp
+  | cons b l ih =>
+    intro h
+    simp only [List.flatMap_cons, List.length_append, List.length_cons]
+    rw [h b (by simp), ih (fun b' hb' => h b' (by simp [hb']))]
+    rw [Nat.mul_succ]; omega
+
+/-- **Sync managers.** An image whose SyncManager category (type 41) holds the 8-byte encodings of up to 8
+    well-formed sync managers parses to exactly those sync managers, in order. -/
+theorem sync_managers_roundtrip (m : Mode) (p : Prov) (hcs : 4 ≤ p.cs) (hdr : List Nat) (pre post : List Cat)
+    (sms : List SmDesc)
+    (himg : HoldsImage p (encodeSii hdr (pre ++ ⟨41, sms.flatMap encSm⟩ :: post))) (hhdr : hdr.length = 128)
+    (hpre : ∀ x ∈ pre, x.WF ∧ catOf x.type ≠ 41 ∧ catOf x.type ≠ Gen.Eeprom.CAT_END)
+    (hsms : ∀ s ∈ sms, s.WF) (hn : sms.length ≤ 8)
+    (hne : empties pre + (if sms.length = 0 then 1 else 0) < 32)
+    (hsize : 128 + (encCats pre).length + 4 + 8 * sms.length < 65536) :
+    (syncManagers m p).1 = .ok (sms.map smOf) := by
+  have hlen : (sms.flatMap encSm).length = 8 * sms.length :=
+    flatMap_length_const encSm 8 sms (fun s _ => by simp [encSm, le16])
+  have hc41 : catOf 41 = 41 := by decide
+  have hcat := category_found m p hcs hdr pre ⟨41, sms.flatMap encSm⟩ post himg hhdr
+    (by simp only [hc41]; exact hpre) ⟨by simp, by simp only [hlen]; omega, by simp only [hlen]; omega⟩
+    (by simp only [hlen]; have : 8 * sms.length / 2 = 0 ↔ sms.length = 0 := by omega
+        simp only [this]; exact hne)
+    (by simp only [hlen]; omega)
+  simp only [hc41, hlen] at hcat
+  unfold syncManagers items
+  simp only [Gen.Eeprom.CAT_SYNC_MANAGER]
+  rw [bind_fst_ok _ (bind_fst_ok _ hcat |>.trans rfl)]
+  have hh := holds_cats himg hhdr
+  rw [encCats_append] at hh
+  simp only [encCats, List.append_assoc] at hh
+  have hbody : Holds p.rd (128 + (encCats pre).length + 4) (sms.flatMap encSm) := by
+    have h1 := hh.append.2
+    unfold encCat at h1
+    simp only [List.append_assoc] at h1
+    have h2 := h1.append.2.append.2.append.1
+    simp only [le16_length] at h2
+    rw [show 128 + (encCats pre).length + 4 = 128 + (encCats pre).length + 2 + 2 by omega]
+    exact h2
+  have := collectLoop_items m p (by omega) 8 Gen.Eeprom.CAP_SYNC_MANAGERS 0 parseSm encSm smOf (by omega)
+    sms ⟨128 + (encCats pre).length + 4, 128 + (encCats pre).length + 4 + 8 * sms.length⟩ []
+    (Gen.Eeprom.CAP_SYNC_MANAGERS + 2)
+    (fun s hs => ⟨by simp [encSm, le16], parseSm_enc s (hsms s hs)⟩) hbody (by simp only [hlen])
+    (by simp only; omega) (by simpa [Gen.Eeprom.CAP_SYNC_MANAGERS] using hn)
+    (by simp only [Gen.Eeprom.CAP_SYNC_MANAGERS]; omega)
+  simpa using this
 
 /-! ### non-vacuity -/
 
